@@ -324,6 +324,12 @@ def compare_tree(actual, exp, path="/"):
     scope = actual[5]
     got = {(a[0], a[1]): a[2] for a in actual[3]}
     want = {(a[0], a[1]): a[2] for a in exp[3]}
+    if TOL_LATE and set(got) != set(want):
+        # (see the element name above) an attribute of such a namespace written with a stale prefix
+        for k in [k for k in want if k[0] in TOL_LATE and k not in got]:
+            stale = [g for g in got if g not in want and g[1] == k[1]]
+            if len(stale) == 1:
+                got[k] = got.pop(stale[0])
     if set(got) != set(want):
         return "%s: attribute names %s, expected %s" % (here, sorted(got, key=str), sorted(want, key=str))
     for k in want:
